@@ -1,6 +1,7 @@
 import Gomjml.Core.MixedProofs
 import Gomjml.Gen.Parser
 import Driver.PassP
+import Gomjml.Core.TextFlow
 /-! driver sub-protocol `mixed <parts>`: the content tree of an element in prefix notation —
     `T <hex>` a text run, `N <hex name> <k> (<hex key> <hex value>)×k <m>` an element followed by its m parts; the whole
     request is `<m>` followed by the m top-level parts (`-` = empty hex).
@@ -61,6 +62,12 @@ def handle (args : List String) : String :=
         let rt := read s == some (evParts isVoid ps)
         s!"{hexOrDash c} {hexOrDash s} {if wf then 1 else 0} {if rt then 1 else 0} {if tidy ps then 1 else 0}"
       | _ => "bad-request"
+  | _ => "bad-request"
+
+/-- `textflow <hex>`: `TextFlow.textInner` of the text, hex (`-` = empty) -/
+def textHandle (args : List String) : String :=
+  match args with
+  | [h] => hexOrDash (Gomjml.TextFlow.textInner (unhex h))
   | _ => "bad-request"
 
 end Driver.MixP
